@@ -3,11 +3,12 @@ from pyvc.verify import Post, Case, Equiv
 from contracts import common
 
 PROPERTY = 'C03'
-REF_MODULES = ['ref_auto']
+REF_MODULES = ['ref_auto', 'ref_core', 'ref_match', 'ref_reduce']
 
 
 def config(cfg):
     common.apply(cfg)
+    cfg.summaries['core._ArgValuator'] = 'new_argvaluator'
 
 
 def contracts():
@@ -29,6 +30,9 @@ def contracts():
     cs.append(Equiv('core.Call.glomit', 'ref_auto.call_ref', args={'self': 'inst:core.Call', 'target': 'ref', 'scope': 'chainmap'}))
     cs.append(Equiv('core.Ref.glomit', 'ref_auto.ref_ref', args={'self': 'inst:core.Ref', 'target': 'ref', 'scope': 'chainmap'}))
     cs.append(Equiv('core.AUTO', 'ref_auto.auto_ref', args={'target': 'ref', 'spec': 'ref', 'scope': 'chainmap'}))
+    from contracts import C08
+    cs += [c for c in C08.contracts() if c.label in ('core._glom', 'core.chain_child')]      # dispatcher: T first, glomit objects (not classes), then the mode
+    cs.append(Equiv('core._has_callable_glomit', 'ref_core.has_callable_glomit_ref', args={'obj': 'ref'}))
     cs.append(Equiv('ref_auto.pipe_law_rhs', 'ref_auto.pipe_law_lhs', label='LEMMA C03.pipe',
                     args={'target': 'ref', 'a': 'ref', 'b': 'ref', 'scope': 'chainmap'},
                     requires=['True']))
